@@ -653,6 +653,32 @@ func (m *minimiser) minimise(sc *sim.Scenario, budget time.Duration) *sim.Scenar
 		}
 	}
 	try(func(c *sim.Scenario) bool { ch := len(c.Cost.Stalls) > 0; c.Cost.Stalls = nil; return ch })
+	if cur.Game != nil {
+		// simulated games: fewer plies, no opening, no book, symmetric clocks
+		for cur.Game.Plies > 1 && time.Now().Before(deadline) {
+			c := cur.Clone()
+			c.Game.Plies = cur.Game.Plies / 2
+			if m.test(c) {
+				cur = c
+				continue
+			}
+			c = cur.Clone()
+			c.Game.Plies = cur.Game.Plies - 1
+			if m.test(c) {
+				cur = c
+				continue
+			}
+			break
+		}
+		try(func(c *sim.Scenario) bool { ch := len(c.Game.Opening) > 0; c.Game.Opening = nil; return ch })
+		try(func(c *sim.Scenario) bool { ch := c.Game.UseBook; c.Game.UseBook = false; return ch })
+		try(func(c *sim.Scenario) bool { ch := c.Game.GuiLagUs > 1; c.Game.GuiLagUs = 1; return ch })
+		try(func(c *sim.Scenario) bool {
+			ch := c.Game.BTimeMs != c.Game.WTimeMs
+			c.Game.BTimeMs = c.Game.WTimeMs
+			return ch
+		})
+	}
 	if cur.Book != nil {
 		try(func(c *sim.Scenario) bool { ch := len(c.Book.Bad) > 0; c.Book.Bad = nil; return ch })
 		try(func(c *sim.Scenario) bool {
